@@ -18,6 +18,7 @@ def plan(tier, seed):
         j["name"] += "[ids=%s]" % ids
         jobs.append(j)
     jobs.append(ch("C07", G, "h_find_max_part", t, ["writer.find_max_part", "api.part_ids"]))
+    jobs.append(ch("C07", G, "h_find_max_part_dirs", t, ["writer.find_max_part", "api.part_ids"]))
     try:
         from . import partnames
         jobs += partnames.jobs("C07", tier)
